@@ -707,3 +707,98 @@ func (a *Analysis) Tail(n int) []string {
 	}
 	return out
 }
+
+// ---------------------------------------------------------------------------
+// C09: reconnect lifecycle
+
+// Lifecycle checks transport hygiene, CONNECT-first, back-off lower bounds and
+// "no dial after Disconnect returned" over the whole trace (tear-down included).
+func (a *Analysis) Lifecycle(baseMs, maxMs int) (out []Finding, redials int, backoffChecked int) {
+	ev := a.R.Tr.Snapshot()
+	base := int64(baseMs) * 1e6
+	max := int64(maxMs) * 1e6
+	k := 0
+	haveEnd := false
+	var tEnd int64
+	curConn := 0
+	closedSeen := map[int]bool{}
+	disconnectRet := -1
+	firstWrite := map[int]bool{}
+	connects := map[int]int{}
+	var ref *mqttref.Packet
+	for _, e := range ev {
+		switch e.Kind {
+		case memnet.KRet:
+			if e.S == "Disconnect" && disconnectRet < 0 {
+				disconnectRet = e.Seq
+			}
+		case memnet.KDialStart:
+			if disconnectRet >= 0 {
+				out = append(out, Finding{"dial-after-disconnect", fmt.Sprintf("dial #%d started (#%d) after Disconnect had returned (#%d)", e.N, e.Seq, disconnectRet)})
+			}
+			if e.Ref != 0 {
+				out = append(out, Finding{"two-open-transports", fmt.Sprintf("dial #%d started while %d transport(s) handed out earlier had not been closed by the library", e.N, e.Ref)})
+			}
+			if e.N > 1 {
+				redials++
+			}
+			if haveEnd {
+				bound := base << uint(k)
+				if bound > max || bound <= 0 {
+					bound = max
+				}
+				gap := int64(e.T) - tEnd
+				backoffChecked++
+				if gap < bound {
+					out = append(out, Finding{"backoff-too-short", fmt.Sprintf("dial #%d started %.3fms after the previous attempt ended; lower bound is %.3fms (base %dms, max %dms, %d consecutive waits since the last success)", e.N, float64(gap)/1e6, float64(bound)/1e6, baseMs, maxMs, k)})
+				}
+				k++
+			}
+			haveEnd = false
+		case memnet.KDialEnd:
+			if e.OK {
+				curConn = e.Conn
+			} else {
+				tEnd, haveEnd = int64(e.T), true
+			}
+		case memnet.KClose:
+			if e.Conn == curConn && !closedSeen[e.Conn] {
+				closedSeen[e.Conn] = true
+				tEnd, haveEnd = int64(e.T), true
+			}
+		case memnet.KState:
+			if e.S == "Active" && e.Conn == curConn {
+				k = 0
+			}
+		case memnet.KWrite:
+			if e.Pkt == nil {
+				continue
+			}
+			if !firstWrite[e.Conn] {
+				firstWrite[e.Conn] = true
+				if e.Pkt.Type != mqttref.CONNECT {
+					out = append(out, Finding{"first-packet-not-connect", fmt.Sprintf("connection %d: first packet written is %v", e.Conn, e.Pkt)})
+				}
+			}
+			if e.Pkt.Type == mqttref.CONNECT {
+				connects[e.Conn]++
+				if connects[e.Conn] > 1 {
+					out = append(out, Finding{"second-connect", fmt.Sprintf("connection %d carries %d CONNECT packets", e.Conn, connects[e.Conn])})
+				}
+				p := e.Pkt
+				if ref == nil {
+					ref = p
+				} else if p.ClientID != ref.ClientID || p.CleanSession != ref.CleanSession || p.KeepAlive != ref.KeepAlive || p.HasWill != ref.HasWill || p.WillTopic != ref.WillTopic ||
+					string(p.WillPayload) != string(ref.WillPayload) || p.WillQoS != ref.WillQoS || p.WillRetain != ref.WillRetain || p.UserName != ref.UserName || p.Password != ref.Password || p.ProtoLevel != ref.ProtoLevel {
+					out = append(out, Finding{"connect-options-changed", fmt.Sprintf("connection %d: CONNECT %+v differs from the first connection's %+v", e.Conn, *p, *ref)})
+				}
+			}
+		}
+	}
+	a.R.Tr.Mu.Lock()
+	for _, s := range a.R.Br.ProtoErrors {
+		out = append(out, Finding{"protocol-error", s})
+	}
+	a.R.Tr.Mu.Unlock()
+	return out, redials, backoffChecked
+}
